@@ -5,7 +5,7 @@ package c18
 // only used from one goroutine at a time).
 //
 // (a) corpus: for the smallest file of every format (the job pool of the free running
-//     pass) the history  A, A cut to 1/2, A cut to 3/4, A without its last byte, the
+//     pass; in fact every corpus file up to 16 KiB, thorough 256 KiB) the history  A, A cut to 1/2, A cut to 3/4, A without its last byte, the
 //     next job's file, A  is executed in one process; the first and the last result of A
 //     must be identical: what a failed or a foreign decode left behind in process wide
 //     state (package level tables, caches, pools, reassembly queues) must not reach a
@@ -24,6 +24,7 @@ import (
 	"strings"
 
 	"github.com/wader/fq/internal/verif/core"
+	"github.com/wader/fq/internal/verif/corpus"
 	"github.com/wader/fq/internal/verif/fqrun"
 	"github.com/wader/fq/pkg/interp"
 )
@@ -32,8 +33,28 @@ func runFreeData(data []byte, format string) string {
 	return runFree(freeJob{Format: format, data: data})
 }
 
+// allCorpusJobs: every corpus file up to maxSize with the first format its fqtests name
+// (probe when none).
+func allCorpusJobs(repo string, maxSize int64) []freeJob {
+	fs, _ := corpus.Files(repo, maxSize)
+	var out []freeJob
+	for i := range fs {
+		f := &fs[i]
+		if len(f.Data) == 0 || strings.Contains(f.Path, "bigzero") {
+			// bigzero-zip.zip: 4 GiB of zeros in a few KiB (decoding it needs the memory)
+			continue
+		}
+		format := "probe"
+		if len(f.Formats) > 0 {
+			format = f.Formats[0]
+		}
+		out = append(out, freeJob{Path: f.Path, Format: format, data: f.Data})
+	}
+	return out
+}
+
 func corpusHistories(r *core.Run) {
-	jobs := freeJobs(r.Repo, 64<<10)
+	jobs := allCorpusJobs(r.Repo, int64(core.Pick(r, 16<<10, 256<<10)))
 	var n int64
 	for i, j := range jobs {
 		if !r.Mine(int64(i) + 1<<40) {
